@@ -98,7 +98,10 @@ impl Sk {
 
 fn passwords(i: usize) -> (Password, Password) {
     let long = "x".repeat(300);
-    match i % 4 {
+    let very_long = "y".repeat(1100);
+    let very_long_other = format!("{}z", &very_long[..1099]); // differs only beyond octet 1016 (= 1024 - salt)
+    match i % 5 {
+        4 => (very_long.as_str().into(), very_long_other.as_str().into()),
         0 => ("correct horse".into(), "correct horsf".into()),
         1 => ("".into(), " ".into()),
         2 => (Password::from(&[0xffu8, 0xfe, 0x00, 0x80, b'a'][..]), Password::from(&[0xffu8, 0xfe, 0x00, 0x80][..])),
@@ -106,9 +109,12 @@ fn passwords(i: usize) -> (Password, Password) {
     }
 }
 
+thread_local! { static LONG_PW: std::cell::Cell<bool> = const { std::cell::Cell::new(false) }; }
+
 fn s2k_for(kind: &str, seed: u64, i: usize) -> StringToKey {
     match kind {
-        "iterated" => StringToKey::new_iterated(rng(seed), if i % 2 == 0 { HashAlgorithm::Sha256 } else { HashAlgorithm::Sha512 }, [0u8, 16, 96, 131][i % 4]),
+        // (password variant 4 is longer than the smallest iterated count: the whole password must still be hashed)
+        "iterated" => StringToKey::new_iterated(rng(seed), if i % 2 == 0 { HashAlgorithm::Sha256 } else { HashAlgorithm::Sha512 }, if LONG_PW.with(|c| c.get()) { 0 } else { [0u8, 16, 96, 131][i % 4] }),
         "salted" => {
             let mut salt = [0u8; 8];
             rng(seed).fill_bytes(&mut salt);
@@ -199,6 +205,7 @@ pub fn run(cases_path: &str, out_path: &str, tier: &str, seed: u64) {
                     _ => unreachable!(),
                 };
                 let (pw, other) = passwords(pi);
+                LONG_PW.with(|c| c.set(pi % 5 == 4));
                 let pick = |name: &str| if name == "pw" { &pw } else { &other };
                 let mut cur = orig.clone();
                 let mut broken: Option<String> = None;
